@@ -141,7 +141,19 @@ def h_derived_root():
     return lsl.GraphBuilder().add(y).build_model(), spec, ["beta", "y"]
 
 
-FAMILY = {"root with a derived scale": h_derived_root, "direct": h_direct, "direct, built with copy=True": h_direct_copy, "uniform root": h_uniform, "int-typed current value": h_intarray, "user-named dist nodes": h_named, "via-calc": h_calc, "diamond": h_diamond, "per_obs=False": h_perobs, "two-level+matrix": h_twolevel}
+def h_value_node_reader():
+    """a derived node reads the drawn variable through its VALUE NODE (not through the variable / its proxy), as the back-transformation of the
+    deprecated GraphBuilder.transform does: it has to be refreshed after the draw like every other dependant"""
+    import liesel.model as lsl
+    h = _hp(mu_loc=3.0, mu_scale=2.0, y_scale=0.5)
+    mu = lsl.Var(0.0, lsl.Dist(tfd().Normal, loc=h["mu_loc"], scale=h["mu_scale"]), name="mu")
+    mid = lsl.Calc(lambda m: 2.0 * m + 1.0, mu.value_node, _name="mid")
+    y = lsl.Var(jnp.zeros(2), lsl.Dist(tfd().Normal, loc=mid, scale=h["y_scale"]), name="y")
+    spec = {"mu": ((), lambda v: v["mu_loc"], lambda v: v["mu_scale"]), "y": ((2,), lambda v: 2 * v["mu"] + 1, lambda v: v["y_scale"])}
+    return lsl.GraphBuilder().add(y).build_model(), spec, ["mu", "y"]
+
+
+FAMILY = {"derived node reading the value node": h_value_node_reader, "root with a derived scale": h_derived_root, "direct": h_direct, "direct, built with copy=True": h_direct_copy, "uniform root": h_uniform, "int-typed current value": h_intarray, "user-named dist nodes": h_named, "via-calc": h_calc, "diamond": h_diamond, "per_obs=False": h_perobs, "two-level+matrix": h_twolevel}
 
 
 def scenario(chk, hname, auto, skip, stale=False):
@@ -269,7 +281,8 @@ def main():
                 ("user-named dist nodes", True, ("mu_prior",)), ("user-named dist nodes", False, ("lik",)), ("uniform root", False, ()), ("uniform root", True, ("y",)), ("int-typed current value", False, ()), ("direct, built with copy=True", True, ()),
                 ("via-calc", True, (), True), ("diamond", True, ("m",), True), ("two-level+matrix", False, (), True),
                 ("root with a derived scale", True, (), True), ("root with a derived scale", False, (), True), ("root with a derived scale", True, ("y",), True), ("root with a derived scale", True, ()),
-                ("via-calc", False, (), "twice"), ("diamond", True, ("m",), "twice")]
+                ("via-calc", False, (), "twice"), ("diamond", True, ("m",), "twice"),
+                ("derived node reading the value node", True, ()), ("derived node reading the value node", False, ())]
     else:
         plan = []
         for h in FAMILY:
